@@ -20,7 +20,7 @@ Not decided: that the MTST / improver produce a tree over all terminals; junctio
 import itertools
 from fractions import Fraction
 
-from ..astq import strip, strip_casts, calls, call_args, call_object, norm, writes, written_field
+from ..astq import strip, strip_casts, calls, call_args, call_object, norm, writes, written_field, literal_value
 from ..cfg import CFG
 from ..facts import AnalysisBroken, walk
 from ..microai.interp import Interp, Obj, Vec, Box, Oracle, AssertFail, Thrown, Unsupported, default_obj
@@ -43,8 +43,11 @@ def build(prog, spec):
             n.f["finalVertex"].f["_name"] = "T:" + nm
         if kind == "S":
             n.f["isConnectorSource"] = True
-        if kind == "D":
-            n.f["isPinDummyEndpoint"] = True        # the dummy end-point vertex behind a connection pin
+        if kind in ("D", "Q"):
+            # D: the dummy end-point vertex behind a connection pin; Q: its orthogonal-partner copy (same position), through which the
+            # spanning tree reaches D when the pin is entered in the other dimension.  Both are flagged by the tree builder
+            # (rule DUMMY-NODES-FLAGGED checks MinimumTerminalSpanningTree::buildHyperedgeTreeToRoot for that).
+            n.f["isPinDummyEndpoint"] = True
         nodes[nm] = n
     edges = []
     for a, b in spec["edges"]:
@@ -72,7 +75,7 @@ def expected_paths(spec, root):
                 continue
             path = [j, nb]
             prev, cur = j, nb
-            while kind[cur] == "N":
+            while kind[cur] in ("N", "Q"):
                 nxt = [x for x in adj[cur] if x != prev]
                 if len(nxt) != 1:
                     break
@@ -171,11 +174,9 @@ def check_tree(prog, spec, root, old_conns_know_terminals=True):
         rt = [(p_.f["x"], p_.f["y"]) for p_ in c.f["m_display_route"].f["ps"].items]
         want_rt = [tuple(Fraction(v) for v in pt[n_]) for n_ in path]
         if kind[path[-1]] == "D":
-            # the dummy vertex behind a pin is not part of the route; the route ends at the pin position (the node before it),
-            # whether or not pin and dummy coincide
-            want_rt = want_rt[:-1]
-            while len(want_rt) > 1 and want_rt[-1] == want_rt[-2]:
-                want_rt.pop()
+            # the dummy vertex behind a pin (and its orthogonal-partner copy, if the path went through it) is not part of the route;
+            # the route ends at the pin position (the node before them), whether or not pin and dummy coincide
+            want_rt = [tuple(Fraction(v) for v in pt[n_]) for n_ in path if kind[n_] not in ("D", "Q")]
         if rt != want_rt and rt != want_rt[::-1]:
             return "connector for path %s: written route %s, expected the points of the path %s (in either direction)" % (
                 "-".join(path), [(str(a), str(b)) for a, b in rt], [(str(a), str(b)) for a, b in want_rt])
@@ -204,6 +205,12 @@ HAND = [
     ("border pin terminal (dummy vertex at the shape centre)",
      {"nodes": {"J": ("J", (0, 0)), "p": ("N", (10, 0)), "t": ("D", (14, 0)), "b": ("T", (0, 9)), "c": ("S", (-9, 0))},
       "edges": [("J", "p"), ("p", "t"), ("J", "b"), ("J", "c")]}, "J"),
+    ("border pin entered in the other dimension (dummy reached through its orthogonal-partner copy)",
+     {"nodes": {"J": ("J", (0, 0)), "x": ("N", (10, 0)), "p": ("N", (10, 6)), "q": ("Q", (10, 9)), "t": ("D", (10, 9)), "b": ("T", (0, 9)), "c": ("S", (-9, 0))},
+      "edges": [("J", "x"), ("x", "p"), ("p", "q"), ("q", "t"), ("J", "b"), ("J", "c")]}, "J"),
+    ("centre pin entered in the other dimension (pin, partner copy and dummy vertex all coincide)",
+     {"nodes": {"J": ("J", (0, 0)), "x": ("N", (10, 0)), "p": ("N", (10, 9)), "q": ("Q", (10, 9)), "t": ("D", (10, 9)), "b": ("T", (0, 9)), "c": ("S", (-9, 0))},
+      "edges": [("J", "x"), ("x", "p"), ("p", "q"), ("q", "t"), ("J", "b"), ("J", "c")]}, "J"),
     ("long bends", {"nodes": {"J": ("J", (0, 0)), "p": ("N", (3, 0)), "q": ("N", (3, 3)), "a": ("T", (6, 3)), "b": ("T", (0, 9)), "c": ("S", (-9, 0))},
                     "edges": [("J", "p"), ("p", "q"), ("q", "a"), ("J", "b"), ("J", "c")]}, "J"),
 ]
@@ -451,8 +458,37 @@ def rule_object_lists(chk, prog):
         (r.bad if bad else r.ok)("execute: " + lst, ex.loc(cs[0]) if cs else ex.where(), bad or "")
 
 
+def rule_dummy_flagged(chk, prog):
+    """TREE-WRITEBACK models the dummy vertex behind a pin AND its orthogonal-partner copy as flagged nodes; this is where they get flagged."""
+    from ..rules.guards import path_condition, atoms
+    r = chk.rule("DUMMY-NODES-FLAGGED", "MinimumTerminalSpanningTree::buildHyperedgeTreeToRoot: the tree node of a dummy pin-helper vertex is "
+                 "flagged isPinDummyEndpoint, and so is the node before it when that is the vertex's orthogonal-partner copy (same position; "
+                 "the tree passes through it when the pin is entered in the other dimension) -- writeEdgesToConns drops exactly the flagged "
+                 "nodes from the end of a route, so an unflagged copy leaves the route ending at the shape centre instead of at the pin", floor=2)
+    fn = prog.fn("Avoid::MinimumTerminalSpanningTree::buildHyperedgeTreeToRoot")
+    cur, prev = [], []
+    for lhs, node, op in writes(fn):
+        if op != "=" or written_field(lhs)[0] != "Avoid::HyperedgeTreeNode::isPinDummyEndpoint" or literal_value(node["ch"][1]) != "true":
+            continue
+        ats = atoms(path_condition(fn, node, inline=True))
+        obj = norm(lhs).split(".")[0]
+        helper = any("isDummyPinHelper()" in a and "currVert" in a for a in ats)
+        if obj == "currentNode" and helper:
+            cur.append(node)
+        if obj == "prevNode" and helper and any("m_orthogonalPartner" in a and "prevVert" in a for a in ats):
+            prev.append(node)
+    r.count()
+    (r.ok if cur else r.bad)("dummy vertex node flagged", fn.loc(cur[0]) if cur else fn.where(), "" if cur else
+                             "no store `currentNode->isPinDummyEndpoint = true` under currVert->id.isDummyPinHelper()")
+    r.count()
+    (r.ok if prev else r.bad)("orthogonal-partner copy flagged", fn.loc(prev[0]) if prev else fn.where(), "" if prev else
+                              "the node before a dummy pin-helper vertex is not flagged when it is that vertex's orthogonal partner: routes of pins "
+                              "entered in the other dimension keep the copy's point and end at the shape centre")
+
+
 def run(chk):
     prog = chk.load()
     rule_writeback(chk, prog, chk.tier)
+    rule_dummy_flagged(chk, prog)
     rule_reroute_lists(chk, prog)
     rule_object_lists(chk, prog)
